@@ -275,20 +275,32 @@ def skipLeadingComments : List Token → List Token
   | t :: rest => if t.kind == .Comment then skipLeadingComments rest else t :: rest
   | [] => []
 
-def fold (d : AnalyzedSource) : Except Panic (List (Nat × Nat)) :=
-  d.ast.decls.filterMap (fun gd => match gd.val with
-      | .proc pd => some (pd, gd.offset)
-      | _ => none)
-    |>.mapM (fun (pd, offset) =>
-      match (allTokens d).sub (pd.info.range.shift offset) with
-      | none => Except.error (⟨"slice"⟩ : Panic)
-      | some s =>
-        let toks := skipLeadingComments s.toList
-        let tr : Range := match toks.head?, toks.getLast? with
-          | some f, some l => ⟨f.range.lo, l.range.hi⟩
-          | _, _ => ⟨0, 0⟩
-        let r := asPosRange tr d.text
-        .ok (r.1.line, r.2.line))
+/-- The folding range of one procedure declaration (start line, end line). -/
+def foldOne (d : AnalyzedSource) (pd : ProcDecl) (offset : Nat) : Except Panic (Nat × Nat) :=
+  match (allTokens d).sub (pd.info.range.shift offset) with
+  | none => .error ⟨"slice"⟩
+  | some s =>
+    let toks := skipLeadingComments s.toList
+    let tr : Range := match toks.head?, toks.getLast? with
+      | some f, some l => ⟨f.range.lo, l.range.hi⟩
+      | _, _ => ⟨0, 0⟩
+    let r := asPosRange tr d.text
+    .ok (r.1.line, r.2.line)
+
+def foldDecls (d : AnalyzedSource) : List (Ref GlobalDecl) → Except Panic (List (Nat × Nat))
+  | [] => .ok []
+  | gd :: rest =>
+    match gd.val with
+    | .proc pd =>
+      match foldOne d pd gd.offset with
+      | .error e => .error e
+      | .ok r =>
+        match foldDecls d rest with
+        | .error e => .error e
+        | .ok rs => .ok (r :: rs)
+    | _ => foldDecls d rest
+
+def fold (d : AnalyzedSource) : Except Panic (List (Nat × Nat)) := foldDecls d d.ast.decls
 
 /-! ### signature_help.rs -/
 
